@@ -55,7 +55,8 @@ func VerifC19_Outbound() {
 		o.blocklist = bl
 	}
 	v := verifStartServer(o)
-	p := verifStartQuery(v, context.Background(), dst, "ping", QueryInput{})
+	// up to three sends: a block list installed between the first send and a resend stops the resends too
+	p := verifStartQuery(v, context.Background(), dst, "ping", QueryInput{NumTries: verifChoice(1, 3)})
 	if !late {
 		verifAssert(!p.sent && v.sock.attempts == 0, "C19: no datagram is ever sent to a blocked address")
 		verifAssert(p.done && p.res.Err != nil && p.outstanding() == 0, "C19: a query to a blocked address fails")
@@ -75,7 +76,10 @@ func VerifC19_Outbound() {
 	verifAssert(q.done && q.res.Err != nil && v.sock.attempts == attempts, "C19: once blocked, no further datagram goes to that address")
 	verifFireTimers()
 	verifQuiesce()
-	verifAssert(p.done && p.res.Err != nil, "C19: the first query ends by time-out")
+	verifFireTimers()
+	verifQuiesce()
+	verifAssert(v.sock.attempts == attempts, "C19: no resend of a query in flight goes to an address blocked in the meantime")
+	verifAssert(p.done && p.res.Err != nil, "C19: the first query ends by time-out or by the refused resend")
 	verifReach("blocked-later")
 }
 
